@@ -637,6 +637,19 @@ var corpus = []string{
 	"/* a */ // b\n# c\nstruct S { /* d */ 1: i32 a /* e */ // f\n }", "const i32 e1 = 1 const double e2 = 1 const list<i32> l = [1 e5]",
 }
 
+// suspects are the smallest documents showing each spelling on which the unchanged tree is suspected to fail.
+func suspects() []*Doc {
+	i32 := func() *Type { return &Type{Name: "i32"} }
+	st := func(f *Field) *Doc { return &Doc{Defs: []*Def{{Kind: "struct", Name: "S", Fields: []*Field{f}}}} }
+	return []*Doc{
+		{Defs: []*Def{{Kind: "const", Name: "d", Type: &Type{Name: "double"}, Value: &CVal{Kind: 1, Dbl: "1e5"}}}},
+		st(&Field{HasID: true, ID: 16, Sp: spHex, Type: i32(), Name: "a"}),
+		st(&Field{HasID: true, ID: 99999999999, Type: i32(), Name: "a"}),
+		st(&Field{HasID: true, ID: 1, Type: &Type{Name: "requiredness"}, Name: "x"}),
+		{},
+	}
+}
+
 // ---------------------------------------------------------------- run
 
 func run(repo, dir string, seed uint64, tier string) error {
@@ -651,6 +664,14 @@ func run(repo, dir string, seed uint64, tier string) error {
 	}
 	for _, s := range corpus {
 		x.check(s, "corpus", true, false)
+	}
+	// the suspects of DESIGN §7 and of the modelling, as minimal documents, through the same oracle
+	for _, d := range suspects() {
+		text := render(d, layCanon, 1)
+		x.check(text, "suspect", true, false)
+		if v := judge(d, text); !v.ok {
+			x.reportDoc(d, v)
+		}
 	}
 	for i := 0; i < nDocs; i++ {
 		dg := &docGen{r: x.r}
